@@ -100,8 +100,8 @@ theorem resume_reports_error (src : List SrcEntry) {t : Store} {b : Nat} (hst : 
   have hne : b ≠ newBandOf t := Nat.ne_of_lt (nextBandId_gt _ b hbmem)
   have hsame : BandSame t (withNewBand t) b := bandSame_of_frame (withNewBand_frame t) hne
   have herrs : unreadableError t b ∈ listErrors (withNewBand t) b := by
-    unfold listErrors chain
-    simp only [List.flatMap_cons, List.mem_append]
+    unfold listErrors
+    simp only [List.mem_append]
     left
     simp [bandErrors, bandReadable_same hsame, hbad, unreadableError_same hsame]
   have hev : Event.error (unreadableError t b) ∈ (backupPrelude.run (World.clean t)).2.events := by
